@@ -57,10 +57,20 @@ class Runner:
             corr.nontrivial((sim.kind, tuple(e[2] for e in sim.events if e[1] != "env")[:60]))
             if sim.late and not sim.is_hid:
                 corr.bump("late-report-traces-not-sent-to-model")
+            elif sim.cfg.get("unsupported"):
+                # the Async model has no 'refused before anything happens' step: these traces are judged by the
+                # independent assertions only (mutex, units, results, lock free, nobody hangs / spins)
+                corr.bump("refused-length-traces-not-sent-to-model")
+                corr.count("traces(assertions only)", 1)
             else:
                 self.batch.append((cfg, sim))
             if len(self.batch) >= 200:
                 self.flush()
+            if getattr(sim, "spin", False):
+                # the driver spun for seconds of real time: reported above (hang:…); one witness per configuration
+                # is enough, the other schedules of this configuration would each cost the watchdog's limit again
+                corr.bump("spin-detected")
+                return False
             return not self.out_of_time()
         return v
 
@@ -191,6 +201,15 @@ def c15_configs(thorough):
                                      budget={"lose": 2, "back": 2},
                                      callers=[("send", "dtq", {}), ("send", "dtc", {}), ("send", "q", {"exc": True}),
                                               ("seq", ["emq", "cfg"], {})]), 60 if thorough else 20))
+        if d == "hasseb":
+            # a frame length this gateway cannot carry (24 bits) is REFUSED in every send mode - default, exceptions
+            # on, exceptions off, per-driver default off - at once, nothing written, lock released, the other callers
+            # served ("every caller eventually completes"): strengthening after seeded round 6
+            out.append(("dfs", dict(driver=d, any_start_order=True, unsupported=True,
+                                    callers=[("send", "dev", {"exc": False}), ("send", "q", {}),
+                                             ("send", "dev", {})]), n))
+            out.append(("dfs", dict(driver=d, exceptions_on_send=False, unsupported=True,
+                                    callers=[("send", "q", {}), ("send", "dev", {}), ("seq", ["dtq", "dev"], {})]), n))
         m = 120 if thorough else 14
         out.append(("rand", dict(driver=d, any_start_order=True, budget={"noise": 1},
                                  callers=[("send", "off", {}), ("send", "emq", {}), ("seq", ["dtq", "q"] + dev, {}),
